@@ -26,10 +26,19 @@
 (*   Submit        [o, from, t, id, stage, sig, resp]                       *)
 (*        sig : g1   operator's own key over response r1                    *)
 (*              g2   operator's own key over response rw                    *)
+(*              g3   operator's own key over response r2                    *)
 (*              x1   another operator's key over r1                         *)
 (*              junk bytes that are not a BLS signature                     *)
 (*              empty present but zero length;  nil absent                  *)
-(*        resp: r1   {TaskID = id}; rw {TaskID = id+7}; rj not JSON; nil    *)
+(*        resp: r1   {TaskID = id}; r2 a DIFFERENT response with TaskID = id; *)
+(*              rw {TaskID = id+7}; rj not JSON; nil                         *)
+(*   A stored result is [stage, sig, resp, rhash, ver, idok]: the last       *)
+(*   submission accepted for the (operator, task) pair, i.e. which phase is   *)
+(*   stored with which (signature, response) pair; ver = the stored signature *)
+(*   verifies over the stored response under the operator's registered key,   *)
+(*   idok = the stored response carries the task id (both FALSE while only    *)
+(*   phase one is stored).  In traces ver / idok are RECOMPUTED by the        *)
+(*   harness with the real blst code on the stored bytes.                     *)
 (*   Challenge     [t, id, o, thash, rhash]  hash classes good | bad        *)
 (*   Tick          []   BeginBlock in which epoch TICKID ends               *)
 (*                                                                         *)
@@ -201,8 +210,8 @@ CreateTask(st, p) ==
 (***************************************************************************)
 StoredSig(sig) == IF sig = "empty" THEN "nil" ELSE sig    \* zero-length bytes are not written by protobuf
 \* blst.VerifySignature(sig, keccak(resp), own registered key of the operator)
-Verifies(sig, resp) == (sig = "g1" /\ resp = "r1") \/ (sig = "g2" /\ resp = "rw")
-RespHasTaskId(resp) == resp = "r1"
+Verifies(sig, resp) == (sig = "g1" /\ resp = "r1") \/ (sig = "g2" /\ resp = "rw") \/ (sig = "g3" /\ resp = "r2")
+RespHasTaskId(resp) == resp \in {"r1", "r2"}
 
 Submit(st, p) ==
   LET tk == <<p.t, p.id>>
@@ -221,7 +230,7 @@ Submit(st, p) ==
         IF p.sig = "empty" /\ "EmptySigPhase1" \notin DEVS       THEN Fail(st, "ErrParamNotEmptyError_sig") ELSE
         IF p.resp # "nil"                                        THEN Fail(st, "ErrParamNotEmptyError_resp") ELSE
         IF cur.n > task.start + task.resp                        THEN Fail(st, "ErrSubmitTooLateError") ELSE
-        Ok([st EXCEPT !.res = Put(@, rk, [stage |-> "1", sig |-> StoredSig(p.sig), resp |-> "nil", rhash |-> ""])])
+        Ok([st EXCEPT !.res = Put(@, rk, [stage |-> "1", sig |-> StoredSig(p.sig), resp |-> "nil", rhash |-> "", ver |-> FALSE, idok |-> FALSE])])
     [] p.stage = "2" ->
         IF p.resp = "nil"                                        THEN Fail(st, "ErrNotNull") ELSE
         IF ~Has(st.res, rk)                                      THEN Fail(st, "ErrInconsistentParams_noPhase1") ELSE
@@ -230,7 +239,9 @@ Submit(st, p) ==
         IF cur.n > task.start + task.resp + task.stat            THEN Fail(st, "ErrSubmitTooLateError") ELSE
         IF ~RespHasTaskId(p.resp)                                THEN Fail(st, "ErrInconsistentParams_taskId") ELSE
         IF ~Verifies(p.sig, p.resp)                              THEN Fail(st, "ErrSigVerifyError") ELSE
-        Ok([st EXCEPT !.res = Put(@, rk, [stage |-> "2", sig |-> StoredSig(p.sig), resp |-> p.resp, rhash |-> "h"])])
+        \* the whole record is overwritten by the submitted one (also when a phase-two record is already stored)
+        Ok([st EXCEPT !.res = Put(@, rk, [stage |-> "2", sig |-> StoredSig(p.sig), resp |-> p.resp, rhash |-> "h",
+                                          ver |-> Verifies(StoredSig(p.sig), p.resp), idok |-> RespHasTaskId(p.resp)])])
     [] OTHER -> Fail(st, "ErrParamError")
 
 (***************************************************************************)
@@ -341,7 +352,12 @@ StateTags(st) ==
   T(\A a, b \in AVSS : (a # b /\ st.avs[a].ex /\ st.avs[b].ex /\ st.avs[a].taddr # "") => st.avs[a].taddr # st.avs[b].taddr,
     "C20_UniqueTaskAddr") \cup
   \* task identifiers per task contract: 1..counter, no gaps above the counter
-  T(\A tk \in DOMAIN st.tasks : tk[2] >= 1 /\ tk[2] <= st.tnum[tk[1]], "C20_TaskIdRange")
+  T(\A tk \in DOMAIN st.tasks : tk[2] >= 1 /\ tk[2] <= st.tnum[tk[1]], "C20_TaskIdRange") \cup
+  \* a stored phase-two result is, at ALL times (not only when the first reveal was accepted), covered by a BLS
+  \* signature that verifies over the stored response under the operator's registered key, and its response
+  \* carries the task id
+  T(\A rk \in DOMAIN st.res : st.res[rk].stage = "2" => st.res[rk].ver, "C20_StoredResultNotVerified") \cup
+  T(\A rk \in DOMAIN st.res : st.res[rk].stage = "2" => st.res[rk].idok, "C20_StoredResultWrongTaskId")
 
 \* --- registry / opt-in ---------------------------------------------------
 RegistryTags(pre, post, ev, a, ok) ==
